@@ -27,12 +27,21 @@ def fracSx (p : Int × Nat) : Sx :=
   if g == 0 then .list [Sx.ofInt p.1, Sx.ofNat p.2]
   else .list [Sx.ofInt (p.1 / (g : Int)), Sx.ofNat (p.2 / g)]
 
-def outArr {β : Type} (f : β → Sx) (a : Arr (Out β)) : Sx :=
-  .list [Sx.ofNats a.shape, .list (a.toList.map fun r => match obs r with | none => M | some v => f v)]
+def elemsSx (a : Arr (Out Sx)) : Sx :=
+  .list (a.toList.map fun r => match obs r with | none => M | some v => v)
 
-def outRes {β : Type} (f : β → Sx) : Except Err (Arr (Out β)) → Sx
+def outArr (a : Arr (Out Sx)) : Sx := .list [Sx.ofNats a.shape, elemsSx a]
+
+def mapOut {β : Type} (f : β → Sx) (r : Arr (Out β)) : Arr (Out Sx) :=
+  ⟨r.shape, fun i => (f (r.get i).1, (r.get i).2)⟩
+
+def mapRes {β : Type} (f : β → Sx) : Except Err (Arr (Out β)) → Except Err (Arr (Out Sx))
+  | .error e => .error e
+  | .ok a => .ok (mapOut f a)
+
+def outRes : Except Err (Arr (Out Sx)) → Sx
   | .error e => errSx e
-  | .ok a => outArr f a
+  | .ok a => outArr a
 
 def cellArr (shape : Shape) (vals : Array Int) (mask : MaskRep) : Arr (Cell Int) :=
   ⟨shape, fun i => ⟨vals[ravel shape i]!, mask.at shape i⟩⟩
@@ -45,21 +54,66 @@ def bcellArr (shape : Shape) (vals : Array Bool) (mask : MaskRep) : Arr (Cell Bo
 
 def vfracSx (p : List Int × Nat) : Sx := .list (p.1.map fun n => fracSx (n, p.2))
 
+/-- the eight Scalar reductions; `none` = unknown name -/
+def runRed (name : String) (a : Arr (Cell Int)) (rep : Rep) (axis : Axis) (minval maxval : Int) :
+    Option (Except Err (Arr (Out Sx))) :=
+  match name with
+  | "sum" => some (mapRes Sx.ofInt (sumCode 1 a axis))
+  | "mean" => some (mapRes fracSx (meanCode 1 a axis))
+  | "max" => some (mapRes Sx.ofInt (maxCode minval 1 a axis))
+  | "min" => some (mapRes Sx.ofInt (minCode maxval 1 a axis))
+  | "argmax" => some (mapRes Sx.ofNat (argmaxCode minval a axis))
+  | "argmin" => some (mapRes Sx.ofNat (argminCode maxval a axis))
+  | "median" => some (mapRes Sx.ofInt (medianCode maxval 2 a axis))
+  | "sort" => some (mapRes Sx.ofInt (sortCode maxval rep a axis))
+  | _ => none
+
+def kindOf (name : String) : OpKind :=
+  if name == "argmax" || name == "argmin" then .index
+  else if name == "any" || name == "all" then .bool else .value
+
+/-- result with units and the optional `builtins=True` conversion.
+    `units`: `-` or a name; `bi`: `-` (no conversion) | `B` (builtins=True) | `S` (… and masked=<sentinel>) -/
+def earlyReturn (name : String) : Bool :=
+  name == "max" || name == "min" || name == "argmax" || name == "argmin" || name == "median"
+
+def finish (name : String) (units : String) (bi0 : String) (operandSize : Nat) : Except Err (Arr (Out Sx)) → Sx
+  | .error e => errSx e
+  | .ok r =>
+    let bi := if builtinsApplies (earlyReturn name) operandSize then bi0 else "-"
+    let u : Option String := resultUnits (kindOf name) (if units == "-" then none else some units)
+    let uSx : Sx := .atom (u.getD "-")
+    let objSx : Sx := .list [.atom "obj", Sx.ofNats r.shape, elemsSx r, uSx]
+    if bi == "-" then objSx
+    else
+      match asBuiltin u.isSome (bi == "S") r with
+      | .py v => .list [.atom "py", v]
+      | .obj _ => objSx
+      | .maskedArg => .atom (if bi == "S" then "sentinel" else "None")
+
+def parseOperands (shapeOf : Sx → Option Shape) (ops : List Sx) : Option (List (Arr (Cell Int))) :=
+  ops.mapM fun o =>
+    match o with
+    | .list [sh, v, m] =>
+      match shapeOf sh, v.ints?, parseMask m with
+      | some shape, some v, some m => some (cellArr shape v.toArray m)
+      | _, _, _ => none
+    | _ => none
+
 def handle : List Sx → Sx
   | [.atom "red", .atom name, sh, vs, m, ax, mn, mx] =>
     match sh.nats?, vs.ints?, parseMask m, parseAxis ax, mn.toInt?, mx.toInt? with
     | some shape, some vals, some mask, some axis, some minval, some maxval =>
-      let a := cellArr shape vals.toArray mask
-      match name with
-      | "sum" => outRes Sx.ofInt (sumCode 1 a axis)
-      | "mean" => outRes fracSx (meanCode 1 a axis)
-      | "max" => outRes Sx.ofInt (maxCode minval 1 a axis)
-      | "min" => outRes Sx.ofInt (minCode maxval 1 a axis)
-      | "argmax" => outRes Sx.ofNat (argmaxCode minval a axis)
-      | "argmin" => outRes Sx.ofNat (argminCode maxval a axis)
-      | "median" => outRes Sx.ofInt (medianCode maxval 2 a axis)
-      | "sort" => outRes Sx.ofInt (sortCode maxval (repOf mask) a axis)
-      | _ => err "reduction"
+      match runRed name (cellArr shape vals.toArray mask) (repOf mask) axis minval maxval with
+      | some r => outRes r
+      | none => err "reduction"
+    | _, _, _, _, _, _ => err "operand"
+  | [.atom "ured", .atom name, sh, vs, m, ax, mn, mx, .atom units, .atom bi] =>
+    match sh.nats?, vs.ints?, parseMask m, parseAxis ax, mn.toInt?, mx.toInt? with
+    | some shape, some vals, some mask, some axis, some minval, some maxval =>
+      match runRed name (cellArr shape vals.toArray mask) (repOf mask) axis minval maxval with
+      | some r => finish name units bi (size shape) r
+      | none => err "reduction"
     | _, _, _, _, _, _ => err "operand"
   | [.atom "vred", .atom name, sh, isz, vs, m, ax] =>
     match sh.nats?, isz.toNat?, vs.ints?, parseMask m, parseAxis ax with
@@ -67,8 +121,8 @@ def handle : List Sx → Sx
       let a := vcellArr shape isz vals.toArray mask
       let dflt := List.replicate isz 1
       match name with
-      | "sum" => outRes Sx.ofInts (vSumCode isz dflt a axis)
-      | "mean" => outRes vfracSx (vMeanCode isz dflt a axis)
+      | "sum" => outRes (mapRes Sx.ofInts (vSumCode isz dflt a axis))
+      | "mean" => outRes (mapRes vfracSx (vMeanCode isz dflt a axis))
       | _ => err "reduction"
     | _, _, _, _, _ => err "operand"
   | [.atom "dred", .atom name, sh, vs, m, ax, ds] =>
@@ -89,11 +143,11 @@ def handle : List Sx → Sx
         | "sum" =>
           match sumWithDerivs 1 a derivs axis with
           | .error e => errSx e
-          | .ok (r, dr) => .list [outArr Sx.ofInt r, .list (dr.map (outRes Sx.ofInt))]
+          | .ok (r, dr) => .list [outArr (mapOut Sx.ofInt r), .list (dr.map fun d => outRes (mapRes Sx.ofInt d))]
         | "mean" =>
           match meanWithDerivs 1 a derivs axis with
           | .error e => errSx e
-          | .ok (r, dr) => .list [outArr fracSx r, .list (dr.map (outRes fracSx))]
+          | .ok (r, dr) => .list [outArr (mapOut fracSx r), .list (dr.map fun d => outRes (mapRes fracSx d))]
         | _ => err "reduction"
     | _, _, _, _, _ => err "operand"
   | [.atom "bred", .atom name, sh, vs, m, ax] =>
@@ -101,38 +155,60 @@ def handle : List Sx → Sx
     | some shape, some vals, some mask, some axis =>
       let a := bcellArr shape vals.toArray mask
       match name with
-      | "any" => outRes Sx.ofBool (anyCode (repOf mask) a axis)
-      | "all" => outRes Sx.ofBool (allCode (repOf mask) a axis)
+      | "any" => outRes (mapRes Sx.ofBool (anyCode (repOf mask) a axis))
+      | "all" => outRes (mapRes Sx.ofBool (allCode (repOf mask) a axis))
+      | _ => err "reduction"
+    | _, _, _, _ => err "operand"
+  | [.atom "ubred", .atom name, sh, vs, m, ax, .atom bi] =>
+    match sh.nats?, vs.bools?, parseMask m, parseAxis ax with
+    | some shape, some vals, some mask, some axis =>
+      let a := bcellArr shape vals.toArray mask
+      match name with
+      | "any" => finish name "-" bi (size shape) (mapRes Sx.ofBool (anyCode (repOf mask) a axis))
+      | "all" => finish name "-" bi (size shape) (mapRes Sx.ofBool (allCode (repOf mask) a axis))
       | _ => err "reduction"
     | _, _, _, _ => err "operand"
   | [.atom "maxmin", .atom name, sh, ops] =>
     -- operands already broadcast to the common shape `sh`; each is (vals mask-bits)
     match sh.nats?, ops.toList? with
     | some shape, some ops =>
-      let arrs : Option (List (Arr (Cell Int))) := ops.mapM fun o =>
-        match o with
-        | .list [v, m] =>
-          match v.ints?, parseMask m with
-          | some v, some m => some (cellArr shape v.toArray m)
-          | _, _ => none
-        | _ => none
-      match arrs with
+      match parseOperands (fun _ => some shape) (ops.map fun o =>
+          match o with | .list [v, m] => .list [.list [], v, m] | x => x) with
       | none => err "operand"
       | some arrs =>
         let f := if name == "maximum" then maximumCode else minimumCode
         if arrs.isEmpty then .atom "ValueError"
         else
-          let res : Arr (Out Int) := ⟨shape, fun i =>
+          let res : Arr (Out Sx) := ⟨shape, fun i =>
             match f (arrs.map fun a => a.get i) with
-            | some c => (c.v, c.m)
-            | none => (0, true)⟩
-          outArr Sx.ofInt res
+            | some c => (Sx.ofInt c.v, c.m)
+            | none => (Sx.ofInt 0, true)⟩
+          outArr res
     | _, _ => err "operand"
+  | [.atom "maxmin2", .atom name, ops, .atom units] =>
+    -- operands with their own shapes: ((shape) (vals) mask); `Qube.broadcast` is in the model
+    match ops.toList? with
+    | some ops =>
+      match parseOperands Sx.nats? ops with
+      | none => err "operand"
+      | some arrs =>
+        match maximumArr (if name == "maximum" then maximumCode else minimumCode) arrs with
+        | .error e => errSx e
+        | .ok r =>
+          let u : Option String := resultUnits .value (if units == "-" then none else some units)
+          .list [.atom "obj", Sx.ofNats r.shape,
+                 elemsSx ⟨r.shape, fun i => (Sx.ofInt (r.get i).v, (r.get i).m)⟩, .atom (u.getD "-")]
+    | none => err "operand"
   | _ => err "c13-op"
 
 end Drv.C13
 
 def main : IO Unit := Drv.runLoop fun x =>
   match x with
+  | .list (.atom "c13" :: .atom "multi" :: reqs) =>
+    -- several reductions of one operand (the harness runs them on ONE object, in order)
+    .list (reqs.map fun r => match r with
+      | .list l => Drv.C13.handle l
+      | _ => .atom "bad-op")
   | .list (.atom "c13" :: rest) => Drv.C13.handle rest
   | _ => .atom "bad-op"
